@@ -1,6 +1,9 @@
 //! `vh-afc` — SCHED binding (DESIGN §2.1) for the fast-channel properties C33, C40–C44:
 //! real OS threads under the cooperative yield-point scheduler `vsched` replay schedules that
 //! TLC generated from the fine-grained specs (ShmMutex, BiArc, ArcStr, AfcShm, AfcMem).
+mod arcstr;
+mod biarc;
+mod driver;
 mod mutex;
 
 #[global_allocator]
@@ -10,11 +13,21 @@ static ALLOC: vsched::alloc::TrackAlloc = vsched::alloc::TrackAlloc;
 pub mod hsite {
     pub const CS_ENTER: u32 = 128;
     pub const CS_EXIT: u32 = 129;
+    /// The thread picks its next operation (the controller put it into the thread's mailbox).
+    pub const OP: u32 = 130;
+    /// The thread reads shared data (`a` = address it reads).
+    pub const READ: u32 = 131;
+    /// A loan thread waits for its loan.
+    pub const LOAN_WAIT: u32 = 132;
+    /// A loan thread starts / stops using the borrowed data.
+    pub const USE: u32 = 133;
+    pub const USED: u32 = 134;
 }
 
 pub fn install_hooks() {
     aranya_fast_channels::verif::set_point_hook(Some(vsched::hook_point));
     aranya_fast_channels::verif::set_futex_hook(Some(vsched::hook_futex));
+    aranya_policy_text::verif::set_point_hook(Some(vsched::hook_point));
 }
 
 fn main() {
@@ -25,6 +38,8 @@ fn main() {
     vsched::BUSY.store(true, std::sync::atomic::Ordering::Relaxed);
     match args.sub.as_str() {
         "mutex" => mutex::run(&args),
+        "arcstr" => arcstr::run(&args),
+        "biarc" => biarc::run(&args),
         s => vrt::die(&format!("unknown subcommand {s}")),
     }
 }
